@@ -18,7 +18,7 @@ func ruleC19(prog *Program, rep *Report) {
 	}
 	info := pk.TypesInfo
 	ruleCallOrder(prog, rep, 2, "alt")
-	ruleParamTwins(prog, rep, 1, "alt") // an ignore path applies to an index as it applies to a key
+	ruleParamTwins(prog, rep, 1, "alt")    // an ignore path applies to an index as it applies to a key
 	ruleChildVariadic(prog, rep, 2, "alt") // ignore paths are relative to the value they are given with
 	ruleTimeEq(prog, rep, "alt")           // Diff and Match treat two times as equal when Equal() says so (after rounding)
 	ruleNumFamily(prog, rep, 4, "alt")     // Diff, Match and the widening helpers treat every integer width alike
